@@ -495,16 +495,19 @@ var apiDocs = []string{
 	`<mjml><mj-head><mj-attributes><mj-all font-family="Roboto"/><mj-text color="#0000ff"/><mj-class name="m1" font-size="30px"/></mj-attributes></mj-head><mj-body><mj-section><mj-column><mj-text mj-class="m1">A</mj-text></mj-column></mj-section></mj-body></mjml>`,
 	`<mjml><mj-body><mj-section><mj-group><mj-column><mj-text mj-class="m1">A</mj-text></mj-column><mj-column><mj-text>B</mj-text></mj-column></mj-group></mj-section></mj-body></mjml>`,
 	`<mjml><mj-body><mj-section><mj-column><mj-text>unclosed</mj-column></mj-section></mj-body></mjml>`,
-	`<mjml><mj-head><mj-attributes><mj-section background-color="#cccccc"/></mj-attributes></mj-head><mj-body><mj-section><mj-column><mj-text bogus="1">V</mj-text></mj-column></mj-section></mj-body></mjml>`,
+	`<mjml><mj-head><mj-attributes><mj-section background-color="#cccccc"/></mj-attributes></mj-head><mj-body><mj-section><mj-column><mj-text color="#00ff00" align="center" bogus="1">V</mj-text></mj-column></mj-section></mj-body></mjml>`, // the invalid attribute comes after valid ones
 	`<mjml><mj-body><mj-section><mj-column><mj-carousel><mj-carousel-image src="a.png"/><mj-carousel-image src="b.png"/></mj-carousel><mj-accordion><mj-accordion-element><mj-accordion-title>Ti</mj-accordion-title><mj-accordion-text>Tx</mj-accordion-text></mj-accordion-element></mj-accordion></mj-column></mj-section></mj-body></mjml>`,
 	`<mjml><mj-body><mj-section><mj-column><mj-navbar hamburger="hamburger"><mj-navbar-link href="/a">A</mj-navbar-link></mj-navbar><mj-social><mj-social-element name="facebook" href="h">F</mj-social-element></mj-social><mj-image src="i.png" fluid-on-mobile="true"/></mj-column></mj-section></mj-body></mjml>`,
+	// parses, but rendering the body fails half way (mj-carousel without images): whatever a failed compilation leaves
+	// behind (buffers, pools, counters) must not reach the next one
+	`<mjml><mj-body><mj-section><mj-column><mj-text>before</mj-text><mj-carousel></mj-carousel></mj-column></mj-section></mj-body></mjml>`,
 }
 
 var (
-	apiOkBits    = "1110111"
-	apiValBits   = "0000100"
-	apiStateBits = "0000000" // no document's tree carries render-to-render state (after the carousel-CSS fix)
-	apiAttrs     = "1,2,0,0,3,0,0"
+	apiOkBits    = "11101112" // 2 = parses, rendering fails
+	apiValBits   = "00001000"
+	apiStateBits = "00000000" // no document's tree carries render-to-render state (after the carousel-CSS fix)
+	apiAttrs     = "1,2,0,0,3,0,0,0"
 )
 
 // one pair of documents per class of head difference (shared with C07): history independence must hold across each of them
@@ -636,7 +639,7 @@ func runC08(res *Result, tier string, seed int64, replay string) {
 					}
 				}
 				d := r.Intn(len(apiDocs))
-				if k == 'N' && apiOkBits[d] == '1' {
+				if k == 'N' && apiOkBits[d] != '0' {
 					trees++
 				}
 				h = append(h, fmt.Sprintf("%c%d", k, d))
@@ -733,9 +736,19 @@ func runC08(res *Result, tier string, seed int64, replay string) {
 				if p[0] == "no-tree" {
 					continue
 				}
+				if len(p) < 2 {
+					res.Disagree(Violation{Sig: "api-model-mismatch|tree-prediction", Kind: "history", What: "unexpected model prediction " + preds[j], Input: in})
+					continue
+				}
 				d, _ := strconv.Atoi(p[1])
 				want := treeFresh[d]
 				same := alphaIDs(ob.HTML) == alphaIDs(want.HTML)
+				if p[0] == "tree-fail" {
+					if ob.Err == "" || ob.Err != want.Err || ob.HTML != "" {
+						res.Violate(Violation{Sig: "history-dependent|failing-tree", Kind: "history", What: fmt.Sprintf("op %d %s: rendering the tree of doc %d must fail as it does in a fresh process (got err %q, html %d bytes)", j, o, d, ob.Err, len(ob.HTML)), Input: in})
+					}
+					continue
+				}
 				if p[0] == "tree-again" {
 					if same {
 						res.Disagree(Violation{Sig: "api-model-mismatch|tree-again", Kind: "history", What: "model says this tree carries render-to-render state, the implementation re-rendered it identically", Input: in})
